@@ -199,8 +199,11 @@ impl ExprReply {
                     if prec < Precedence::Mul {
                         literal!("(");
                     }
-                    for expr in exprs.iter() {
-                        recurse(expr, parts, Precedence::Pow);
+                    if let Some(first) = exprs.first() {
+                        recurse(first, parts, Precedence::Pow);
+                    }
+                    for expr in exprs.iter().skip(1) {
+                        recurse(expr, parts, Precedence::factor(expr));
                     }
                     if prec < Precedence::Mul {
                         literal!(")");
@@ -225,19 +228,31 @@ impl ExprReply {
                     }
                     recurse(&binop.left, parts, succ);
                     literal!(binop.op.symbol());
-                    recurse(&binop.right, parts, op_prec);
+                    recurse(&binop.right, parts, Precedence::right(binop.op));
                     if prec < op_prec {
                         literal!(")");
                     }
                 }
                 Expr::UnaryOp(ref unaryop) => match unaryop.op {
                     UnaryOpType::Positive => {
+                        if prec < Precedence::Plus {
+                            literal!("(");
+                        }
                         literal!("+");
-                        recurse(&unaryop.expr, parts, Precedence::Plus)
+                        recurse(&unaryop.expr, parts, Precedence::Plus);
+                        if prec < Precedence::Plus {
+                            literal!(")");
+                        }
                     }
                     UnaryOpType::Negative => {
+                        if prec < Precedence::Plus {
+                            literal!("(");
+                        }
                         literal!("-");
-                        recurse(&unaryop.expr, parts, Precedence::Plus)
+                        recurse(&unaryop.expr, parts, Precedence::Plus);
+                        if prec < Precedence::Plus {
+                            literal!(")");
+                        }
                     }
                     UnaryOpType::Degree(ref suffix) => {
                         if prec < Precedence::Mul {
@@ -258,7 +273,7 @@ impl ExprReply {
                         literal!("(");
                     }
                     let mut sub = vec![];
-                    recurse(expr, &mut sub, Precedence::Div);
+                    recurse(expr, &mut sub, Precedence::Mul);
                     parts.push(ExprParts::Property {
                         property: property.to_owned(),
                         subject: sub,
